@@ -337,6 +337,12 @@ class VM:
             except JSSyntaxError as e:
                 # Raised by built-ins that parse text (JSON.parse, RegExp)
                 self._handle_python_exception("SyntaxError", e.message)
+            except (TimeLimitError, MemoryLimitError):
+                raise
+            except JSError as e:
+                # An uncaught throw of code run by a built-in in a VM of its own
+                # (eval, Function, accessors read by Object.*): handlers here see it
+                self._rethrow_script_error(e)
             except NativeUnwind:
                 # A handler of one of our frames took over; carry on from there
                 pass
@@ -2716,6 +2722,15 @@ class VM:
                 ):
                     raise
                 self._handle_python_exception(e.name, e.message)
+            except (TimeLimitError, MemoryLimitError):
+                raise
+            except JSError as e:
+                if not (
+                    self.exception_handlers
+                    and self.exception_handlers[-1][0] >= call_stack_len
+                ):
+                    raise
+                self._rethrow_script_error(e)
 
         # Get result from stack
         if len(self.stack) > stack_len:
@@ -2877,14 +2892,38 @@ class VM:
             if self._native_entry and frame_idx < self._native_entry[-1]:
                 raise NativeUnwind()
         else:
-            # Uncaught exception
+            # Uncaught exception (the thrown value travels with the host error)
             if isinstance(exc, str):
-                raise JSError(exc)
+                error = JSError(exc)
             elif isinstance(exc, JSObject):
                 msg = exc.get("message")
-                raise JSError(to_string(msg) if msg else "Error")
+                name = exc.get("name")
+                if msg is not UNDEFINED or isinstance(name, str):
+                    # An error object: "<name>: <message>"
+                    error = JSError(
+                        to_string(msg) if msg is not UNDEFINED else "",
+                        name if isinstance(name, str) and name else "Error",
+                    )
+                elif isinstance(exc, JSArray):
+                    error = JSError(
+                        ",".join(
+                            "" if e is UNDEFINED or e is NULL else to_string(e)
+                            for e in exc._elements
+                        )
+                    )
+                else:
+                    error = JSError(to_string(exc))
             else:
-                raise JSError(to_string(exc))
+                error = JSError(to_string(exc))
+            error.value = exc
+            raise error
+
+    def _rethrow_script_error(self, error: JSError) -> None:
+        """Throw, in this VM, what nested code left uncaught."""
+        if hasattr(error, "value"):
+            self._throw(error.value)
+        else:
+            self._handle_python_exception("Error", error.message)
 
     def _handle_python_exception(self, error_type: str, message: str) -> None:
         """Convert a Python exception to a JavaScript exception and throw it."""
